@@ -36,7 +36,7 @@ def plan(tier, seed, rng, scale):
         for rcmode in (True, False):
             for kind in KINDS:
                 descs.append({'kind': kind, 'k': k, 'rc': rcmode, 'seed': rng.getrandbits(32)})
-    nrand = int((3000 if tier == 'quick' else 60000) * scale)
+    nrand = int((12000 if tier == 'quick' else 60000) * scale)
     for i in range(nrand):
         kind = 'multi' if i % 5 == 0 else ('long' if (tier == 'thorough' and i % 50 == 1) else 'random')
         descs.append({'kind': kind, 'k': rng.choice(G.ALL_K), 'rc': rng.random() < 0.6, 'seed': rng.getrandbits(32)})
